@@ -91,6 +91,7 @@ class DriverPolicy(Policy):
         self.rootdir = root
         self.active = []      # qualnames currently under modular treatment
         self.loop_ordinals = {}
+        self.entered = False  # the target's own top-level call is executed, not abstracted
 
     def is_repo_file(self, filename):
         return os.path.realpath(filename).startswith(self.root)
@@ -112,6 +113,9 @@ class DriverPolicy(Policy):
                 raise ProgExc(e)
         cal = self.c.callees.get(q)
         if cal is None:
+            return NotImplemented
+        if q == self.c.qualname and not self.entered:
+            self.entered = True
             return NotImplemented
         if not (isinstance(fn, IFunc) or isinstance(fn, types.FunctionType)):
             return NotImplemented
